@@ -805,6 +805,80 @@ def _returned_member(eng, fd, root):
     return None
 
 
+def _ascending_by_construction(prog, eng, tgt):
+    """a local function returns a list that is strictly ascending because of how it is filled: created empty and grown by one `push` site
+    that pushes the position the enclosing loop is at (the variable of `for i in a..b`, or the index of `.enumerate()`)"""
+    b = prog.bodies.get(tgt)
+    if b is None or not b.local_ty(0).startswith('std::vec::Vec<usize'):
+        return False
+    fd = eng.fndep(tgt)
+    rds = [d for d in fd.defs.get(0, []) if not d[2].get('dst', {}).get('p')]
+    if len(rds) != 1 or rds[0][0] != 'assign' or rds[0][2]['rv']['k'] != 'use' or rds[0][2]['rv']['op']['k'] not in ('copy', 'move'):
+        return False
+    root = fd.resolve_place(rds[0][2]['rv']['op']['pl'])[0]
+    cr = fd.defs.get(root, [])
+    if len(cr) != 1 or cr[0][0] != 'call' or not (cr[0][2].get('callee') or '').endswith(('Vec::<T>::new', 'Vec::<T>::with_capacity')):
+        return False
+    pushes = []
+    for bi, t in b.calls():
+        for ai, a in enumerate(t['args']):
+            if a['k'] in ('copy', 'move') and b.local_ty(a['pl']['l']).startswith('&mut ') and fd.resolve_place(a['pl'])[0] == root:
+                if (t.get('callee') or '') == 'std::vec::Vec::<T, A>::push' and ai == 0:
+                    pushes.append((bi, t))
+                else:
+                    return False
+    if len(pushes) != 1:
+        return False
+    bi, t = pushes[0]
+    loops = [(h, blocks) for h, blocks in b.natural_loops() if bi in blocks]
+    if not loops:
+        return False
+    # the pushed value: a copy of the item (or of member 0 of the item) handed out by the `next()` of that loop
+    o = t['args'][1]
+    for _ in range(6):
+        if o.get('k') not in ('copy', 'move'):
+            return False
+        pl = o['pl']
+        ds = [d for d in fd.defs.get(pl['l'], []) if not d[2].get('dst', {}).get('p')]
+        fields = [q for q in pl.get('p', []) if q['k'] == 'field' and not str(q.get('adt', '')).startswith(('std::option', 'core::option'))]
+        if len(ds) == 1 and ds[0][0] == 'call' and (ds[0][2].get('callee') or '') == 'std::iter::Iterator::next' and ds[0][1] in loops[0][1]:
+            it = ds[0][2]['args'][0]
+            # what is iterated: a Range (the item is the position) or an Enumerate (member 0 is)
+            l_ = it['pl']['l']
+            for _j in range(6):
+                dd = [d for d in fd.defs.get(l_, []) if not d[2].get('dst', {}).get('p')]
+                if len(dd) != 1:
+                    return False
+                d0 = dd[0]
+                if d0[0] == 'assign' and d0[2]['rv']['k'] in ('use', 'ref'):
+                    src = d0[2]['rv'].get('pl') or d0[2]['rv'].get('op', {}).get('pl')
+                    if src is None:
+                        return False
+                    l_ = src['l']
+                    continue
+                if d0[0] == 'call' and (d0[2].get('callee') or '') in ('std::iter::IntoIterator::into_iter', 'std::iter::Iterator::by_ref') and d0[2]['args'] \
+                        and d0[2]['args'][0]['k'] in ('copy', 'move'):
+                    l_ = d0[2]['args'][0]['pl']['l']
+                    continue
+                if d0[0] == 'call' and (d0[2].get('callee') or '') == 'std::iter::Iterator::enumerate':
+                    return len(fields) == 1 and str(fields[0]['n']) == '0'
+                if d0[0] == 'assign' and d0[2]['rv']['k'] == 'agg' and d0[2]['rv'].get('name') in ('std::ops::Range', 'std::ops::RangeInclusive'):
+                    return not fields
+                return False
+            return False
+        if len(ds) == 1 and ds[0][0] == 'assign' and ds[0][2]['rv']['k'] == 'use' and not fields:
+            o = ds[0][2]['rv']['op']
+            continue
+        if len(ds) == 1 and ds[0][0] == 'assign' and ds[0][2]['rv']['k'] == 'use' and fields:
+            # `i = (item.0)`: carry the member over to the source place
+            src = ds[0][2]['rv']['op']
+            if src.get('k') in ('copy', 'move'):
+                o = {'k': 'copy', 'pl': {'l': src['pl']['l'], 'p': list(src['pl'].get('p', [])) + [q for q in pl.get('p', []) if q['k'] == 'field']}}
+                continue
+        return False
+    return False
+
+
 def _normalised_before(prog, eng, body, fd, root, use_block, depth=0, path=()):
     """is the index list held in local `root` sorted and de-duplicated on every path to use_block?  Either both calls are made on it in this
     body and dominate the use, or it is the result of a local helper that returns a list on which both calls dominate the return."""
@@ -824,8 +898,33 @@ def _normalised_before(prog, eng, body, fd, root, use_block, depth=0, path=()):
     if _ascending_validated(prog, eng, body, fd, root, use_block):
         return True, 'refused unless strictly ascending in %s' % body.path.split('::')[-1]
     ds = fd.defs.get(root, [])
+    # built on several paths, each in its own way (`if already_ascending { Cow::Borrowed(list) } else { sorted copy }`): every path normalises
+    wds = [d for d in ds if not d[2].get('dst', {}).get('p')]
+    if depth < 3 and len(wds) > 1 and all(d[0] == 'assign' for d in wds):
+        whys = []
+        for kind_, dbi, x in wds:
+            rv = x['rv']
+            o = None
+            if rv['k'] == 'agg' and rv.get('ak') == 'adt' and len(rv.get('ops', [])) == 1:
+                o = rv['ops'][0]
+            elif rv['k'] in ('use', 'cast'):
+                o = rv['op']
+            elif rv['k'] == 'ref':
+                o = {'k': 'copy', 'pl': rv['pl']}
+            if o is None or o.get('k') not in ('copy', 'move'):
+                whys = None
+                break
+            ok_, why_ = _normalised_before(prog, eng, body, fd, fd.resolve_place(o['pl'])[0], dbi, depth + 1)
+            if not ok_:
+                whys = None
+                break
+            whys.append(why_)
+        if whys:
+            return True, 'on every path: ' + '; '.join(sorted(set(whys)))[:200]
     if depth < 3 and len(ds) == 1 and ds[0][0] == 'call':
         tgt = local_target(eng, ds[0][2])
+        if tgt and tgt in prog.bodies and tgt != body.path and _ascending_by_construction(prog, eng, tgt):
+            return True, 'ascending by construction in %s (positions pushed in loop order)' % tgt.split('::')[-1]
         if tgt and tgt in prog.bodies and tgt != body.path:
             cb, cfd = prog.bodies[tgt], eng.fndep(tgt)
             rds = [d for d in cfd.defs.get(0, []) if not d[2].get('dst', {}).get('p')]
